@@ -540,7 +540,15 @@ def definitely_nonnull(e, is_class=lambda name: name[:1].isupper()):
         return True
     if isinstance(e, ast.Call) and isinstance(e.func, ast.Name):
         return is_class(e.func.id) or e.func.id in ("str", "list", "dict", "set", "tuple", "int", "len", "sorted", "bool", "float", "deque", "Counter")
+    if isinstance(e, ast.Subscript) and isinstance(e.slice, ast.Slice):
+        return True  # slicing yields a sequence (or raises)
+    if isinstance(e, ast.Call) and isinstance(e.func, ast.Attribute) and e.func.attr in STR_TOTAL_METHODS:
+        return True
     return False
+
+
+# methods of str that never return None and that no class of the repository defines
+STR_TOTAL_METHODS = ("strip", "lstrip", "rstrip", "lower", "upper", "split", "rsplit", "splitlines", "join", "replace", "startswith", "endswith", "expandtabs", "casefold")
 
 
 def _unconditional_derefs(root):
